@@ -184,13 +184,7 @@ theorem C10_lookup {iana : Name → Option E} {items : List (Match E L)} (hnd : 
       simp only [hnot]
       exact ih hna.2.1 hm
 
-/-- **C10 (most probable language)** — first listed language if any, else English when `ascii` is a
-    candidate, else the first language tied to / inferred from the encoding, else Unknown -/
-def mostProbable (english unknown : L) (ascii : E) (inferred : E → List L) (m : Match E L) : L :=
-  match m.cohs with
-  | (l, _) :: _ => l
-  | [] => if m.cands.contains ascii then english else (inferred m.enc).head?.getD unknown
-
+/-- **C10 (most probable language)** — `mostProbable` (Model/Entity.lean): the head of the language list when there is one -/
 theorem C10_most_probable_head {english unknown : L} {ascii : E} {inferred : E → List L} (m : Match E L)
     (l : L) (ls : List L) (h : m.languages = l :: ls) : mostProbable english unknown ascii inferred m = l := by
   unfold mostProbable
